@@ -7,16 +7,21 @@
     nonzero and every diagonal entry and stays inside the cone's rows, the packed-triangle
     index map is injective, the standard reversal returns vectors of the original length and
     reads a singly-covered row from its one block.
-    NOT proved here (validated per run instead, see design.d/C18.md): the linear-algebra
-    equivalence [std_equiv]/[cmp_equiv], [completion_preserves], and the Agler/Grone
-    decomposition-completion theorem (a premise of "same verdict and objective", never an axiom).
+    Linear algebra (over Z): [std_equiv] for the standard form and the telescoping / consistency
+    theorems of the compact form (abstract in the layout; the layout hypotheses are evaluated per
+    run); index statement of the PSD completion.
+    NOT proved here: that the concrete compact layout satisfies the layout hypotheses for every
+    valid tree (checked per run), positive semidefiniteness of the completed matrix (validated
+    per run), and the Agler/Grone decomposition-completion theorem (a premise of "same verdict
+    and objective", never an axiom).
     The model (Chordal/Decomp.v) is compared exactly with the implementation on integer data,
     and returned solutions are re-checked against the original problem in exact dyadic
     arithmetic (Chordal/E2E.v). *)
 From Coq Require Import List Arith ZArith NArith.
 Import ListNotations.
 Require Import Clarabel.Chordal.TreeSpec Clarabel.Chordal.TriIndex Clarabel.Chordal.E2E
-               Clarabel.Chordal.Decomp Clarabel.Chordal.DecompLemmas.
+               Clarabel.Chordal.Decomp Clarabel.Chordal.DecompLemmas Clarabel.Chordal.StdRows
+               Clarabel.Chordal.CompletionIdx Clarabel.Chordal.Equiv.
 Require Clarabel.Props.C17.
 
 Theorem C18_cmp_rows_once_unique : forall p t, ValidTree p t ->
@@ -47,6 +52,93 @@ Theorem C18_std_rev_s_single : forall m HI s1 r k,
   length s1 = length HI ->
   nth (N.to_nat r) (std_rev_s m HI s1) 0%Z = nth k s1 0%Z.
 Proof. exact std_rev_s_single. Qed.
+
+(** standard form, rows once: the data columns and b are copied verbatim, each added column is
+    exactly the unit entry of H plus the -1 of the identity block, and inside a clique block every
+    entry (i, j) of the clique has its own row *)
+Theorem C18_std_rows_once_data : forall m Acols HI,
+  firstn (length Acols) (std_A m Acols HI) = Acols /\ length (std_A m Acols HI) = (length Acols + length HI)%nat.
+Proof. intros. split; [apply std_A_keeps_data | apply std_A_length]. Qed.
+Theorem C18_std_rows_once_added : forall m Acols HI k, (k < length HI)%nat ->
+  nth (length Acols + k) (std_A m Acols HI) [] = [(nth k HI 0%N, 1%Z); ((m + N.of_nat k)%N, (-1)%Z)].
+Proof. exact std_A_added_col. Qed.
+Theorem C18_std_rows_once_b : forall b HI,
+  firstn (length b) (std_b b HI) = b /\ skipn (length b) (std_b b HI) = repeat 0%Z (length HI).
+Proof. exact std_b_keeps. Qed.
+Theorem C18_subblock_NoDup : forall c row0, NoDup c -> NoDup (subblock c row0).
+Proof. exact subblock_NoDup. Qed.
+
+(** PSD completion, index statement: the positions (x, v) it writes (v in the supernode of a
+    clique j, x beyond the supernode's first vertex and outside clique j) lie in NO clique block,
+    hence outside the aggregate sparsity pattern: completion changes no constrained entry *)
+Theorem C18_completion_preserves : forall p t, ValidTree p t ->
+  forall j v x i0 rest, In j (post t) -> sn t j = i0 :: rest -> In v (sn t j) ->
+    (i0 < x)%N -> ~ In x (clique t j) ->
+    forall d, In d (post t) -> ~ (In x (clique t d) /\ In v (clique t d)).
+Proof. exact completion_preserves. Qed.
+Theorem C18_completion_outside_pattern : forall p t, ValidTree p t ->
+  forall j v x i0 rest, In j (post t) -> sn t j = i0 :: rest -> In v (sn t j) ->
+    (i0 < x)%N -> ~ In x (clique t j) -> (x < pn p)%N -> (v < pn p)%N ->
+    ~ In (ord t x, ord t v) (pedges p) /\ ~ In (ord t v, ord t x) (pedges p).
+Proof. exact completion_outside_pattern. Qed.
+
+(** std_equiv — linear algebra of the standard form over Z (the ring the model computes in).
+    ax stands for A x; u are the added variables, s0 the Zero-cone slack, s1 the stacked clique
+    blocks; z0 the dual of the first m rows, z1 the dual of the block rows. *)
+Theorem C18_std_rev_s_is_block_sum : forall m HI v r, (r < m)%N ->
+  nth (N.to_nat r) (Hmul m HI v) 0%Z =
+  list_sum_Z (map snd (filter (fun hv : N * Z => N.eqb (fst hv) r) (combine HI v))).
+Proof. exact Hmul_spec. Qed.
+Theorem C18_std_primal_equiv : forall m HI ax b u s0 s1,
+  length HI = length u -> length s1 = length u ->
+  (forall r, (r < m)%N ->
+     (nth (N.to_nat r) ax 0 + nth (N.to_nat r) (Hmul m HI u) 0 + nth (N.to_nat r) s0 0
+      = nth (N.to_nat r) b 0)%Z) ->
+  (forall r', nth r' s0 0%Z = 0%Z) ->
+  (forall k, (k < length u)%nat -> (- nth k u 0 + nth k s1 0 = 0)%Z) ->
+  forall r, (r < m)%N ->
+    (nth (N.to_nat r) ax 0 + nth (N.to_nat r) (std_rev_s m HI s1) 0 = nth (N.to_nat r) b 0)%Z.
+Proof. exact std_primal_equiv. Qed.
+Theorem C18_std_rev_z_agrees : forall m HI z0 z1,
+  length z1 = length HI ->
+  (forall k, (k < length HI)%nat -> nth k z1 0%Z = nth (N.to_nat (nth k HI 0%N)) z0 0%Z) ->
+  forall r, (r < m)%N -> (exists k, (k < length HI)%nat /\ nth k HI 0%N = r) ->
+  nth (N.to_nat r) (std_rev_z m HI z1) 0%Z = nth (N.to_nat r) z0 0%Z.
+Proof. exact std_rev_z_agrees. Qed.
+Theorem C18_std_rev_z_blocks : forall m HI z0 z1,
+  length z1 = length HI ->
+  (forall k, (k < length HI)%nat -> nth k z1 0%Z = nth (N.to_nat (nth k HI 0%N)) z0 0%Z) ->
+  forall k, (k < length HI)%nat -> (nth k HI 0%N < m)%N ->
+  nth k z1 0%Z = nth (N.to_nat (nth k HI 0%N)) (std_rev_z m HI z1) 0%Z.
+Proof. exact std_rev_z_blocks. Qed.
+(** A'z and b'z are unchanged: a column of A (or b) vanishing on the rows H does not reach *)
+Theorem C18_std_dual_products_unchanged : forall m HI z0 z1 a,
+  length z1 = length HI ->
+  (forall k, (k < length HI)%nat -> nth k z1 0%Z = nth (N.to_nat (nth k HI 0%N)) z0 0%Z) ->
+  length a = N.to_nat m ->
+  (N.to_nat m <= length z0)%nat ->
+  (forall r, (r < m)%N -> ~ (exists k, (k < length HI)%nat /\ nth k HI 0%N = r) ->
+             nth (N.to_nat r) a 0%Z = 0%Z) ->
+  dotZ a (std_rev_z m HI z1) = dotZ a (firstn (N.to_nat m) z0).
+Proof. exact std_dual_products_unchanged. Qed.
+
+(** cmp_equiv — the same through the overlap ties (abstract over the layout: [orig] gives the
+    original row of every new row; the hypotheses on the layout are evaluated per run by
+    DecompCheck.cmp_struct_ok on the model layout, which is compared exactly with the code) *)
+Theorem C18_cmp_primal_equiv : forall M orig ties y dat s' b' ax b,
+  (forall p q, In (p, q) ties ->
+     (p < M)%nat /\ (q < M)%nat /\ nth p orig 0%nat = nth q orig 0%nat) ->
+  (forall i, (i < M)%nat ->
+     (nth i dat 0 + tie_contrib ties y i + nth i s' 0 = nth i b' 0)%Z) ->
+  (forall r, gsum M orig r (fun i => nth i dat 0%Z) = nth r ax 0%Z) ->
+  (forall r, gsum M orig r (fun i => nth i b' 0%Z) = nth r b 0%Z) ->
+  forall r, (nth r ax 0 + gsum M orig r (fun i => nth i s' 0%Z) = nth r b 0)%Z.
+Proof. exact cmp_primal_equiv. Qed.
+Theorem C18_cmp_dual_consistent : forall ties z',
+  (forall k, (k < length ties)%nat ->
+     (nth (fst (nth k ties (0%nat, 0%nat))) z' 0 - nth (snd (nth k ties (0%nat, 0%nat))) z' 0 = 0)%Z) ->
+  forall i j, linked ties i j -> nth i z' 0%Z = nth j z' 0%Z.
+Proof. exact cmp_dual_consistent. Qed.
 
 (** non-vacuity on the path 0-1-2 (cliques {0,1} -> {1,2}, valid by C17_example_valid):
     H of the standard form, the reversal sums the overlap row 2 and averages z there,
